@@ -5,6 +5,7 @@ package main
 
 import (
 	"fmt"
+	"regexp"
 	"go/token"
 	"go/types"
 	"sort"
@@ -51,6 +52,7 @@ type Obligation struct {
 	Raw     string
 	Clause  *Clause
 	Block   *Block
+	Sliced  bool // the model comes from the sliced query only (candidate)
 }
 
 type InputLeaf struct {
@@ -63,6 +65,14 @@ type Ctx struct {
 	eng        *Engine
 	unit       string
 	prelude    []string
+	reachNodes map[string]*reachNode
+	defIndex   map[string]int
+	NoSlice    bool
+	defMemo    map[string]string
+	heapAlloc  map[string]Term
+	alloc0     Term
+	genAlloc   map[int]Term
+	subject    map[int]string // prelude index -> subject symbol of a definitional axiom
 	declared   map[string]bool
 	n          int
 	shapes     map[string]*PtrShape
@@ -90,7 +100,7 @@ type Ctx struct {
 }
 
 func newCtx(eng *Engine, unit string) *Ctx {
-	c := &Ctx{eng: eng, unit: unit, declared: map[string]bool{}, shapes: map[string]*PtrShape{}, strConsts: map[string]Term{}, heap0: map[string]Term{}, assumed: map[string]bool{}, abstracted: map[string]bool{}, ufDefs: map[string]bool{}, unfolded: map[string]bool{}, typeIDs: map[string]int{}, oblCount: map[string]int{}, globals: map[string]Term{}, used: map[*Block]bool{}}
+	c := &Ctx{eng: eng, unit: unit, declared: map[string]bool{}, shapes: map[string]*PtrShape{}, strConsts: map[string]Term{}, heap0: map[string]Term{}, assumed: map[string]bool{}, abstracted: map[string]bool{}, ufDefs: map[string]bool{}, unfolded: map[string]bool{}, typeIDs: map[string]int{}, subject: map[int]string{}, reachNodes: map[string]*reachNode{}, defMemo: map[string]string{}, heapAlloc: map[string]Term{}, genAlloc: map[int]Term{}, defIndex: map[string]int{}, oblCount: map[string]int{}, globals: map[string]Term{}, used: map[*Block]bool{}}
 	c.fuel = 1
 	c.emit("(declare-sort Str 0)")
 	c.emit("(declare-fun slen (Str) Int)")
@@ -127,9 +137,23 @@ func (c *Ctx) define(prefix string, t Term) Term {
 			return t
 		}
 	}
+	if n, ok := c.defMemo[t.S]; ok {
+		return Term{n, t.Sort}
+	}
 	name := c.freshName(prefix)
 	c.emit(fmt.Sprintf("(define-fun %s () %s %s)", name, t.Sort, t.S))
+	c.defMemo[t.S] = name
 	return Term{name, t.Sort}
+}
+
+// assertDef emits a definitional axiom about a fresh symbol; queries include
+// it only when the symbol is in the cone of influence of the obligation.
+func (c *Ctx) assertDef(sym Term, t Term) {
+	if t.IsTrue() {
+		return
+	}
+	c.subject[len(c.prelude)] = sym.S
+	c.emit("(assert " + t.S + ")")
 }
 
 func (c *Ctx) assert(t Term) {
@@ -175,6 +199,11 @@ func (c *Ctx) heapInit(gen int, key string, sort Sort) Term {
 	}
 	t := Term{name, sort}
 	c.heap0[gk] = t
+	if gen == 0 && c.alloc0.S != "" {
+		c.heapAlloc[name] = c.alloc0
+	} else if a, ok := c.genAlloc[gen]; ok {
+		c.heapAlloc[name] = a
+	}
 	return t
 }
 
@@ -265,11 +294,318 @@ func (c *Ctx) query(o *Obligation, withModel bool) string {
 		b.WriteString("(set-option :produce-models true)\n")
 	}
 	b.WriteString("(set-logic ALL)\n")
-	for _, l := range c.prelude[:o.Prefix] {
+	keep := c.cone(o)
+	for i, l := range c.prelude[:o.Prefix] {
+		if !keep[i] {
+			continue
+		}
 		b.WriteString(l)
 		b.WriteByte('\n')
 	}
 	b.WriteString("(assert " + o.Reach.S + ")\n")
+	if o.Expect == "unsat" {
+		b.WriteString("(assert (not " + o.Goal.S + "))\n")
+	}
+	b.WriteString("(check-sat)\n")
+	if withModel && len(c.inputs) > 0 {
+		b.WriteString("(get-value (")
+		for _, in := range c.inputs {
+			b.WriteString(in.Const + " ")
+		}
+		b.WriteString("))\n")
+	}
+	return b.String()
+}
+
+var symRe = regexp.MustCompile(`[A-Za-z_][A-Za-z0-9_.!$#@]*`)
+
+// cone computes which prelude lines an obligation's query needs: everything
+// except definitional axioms (assertDef) whose subject symbol is not reachable
+// from the goal and path condition through definitions.
+func (c *Ctx) cone(o *Obligation) []bool {
+	n := o.Prefix
+	keep := make([]bool, n)
+	defBody := map[string]int{}
+	var tagged []int
+	for i := 0; i < n; i++ {
+		l := c.prelude[i]
+		if _, ok := c.subject[i]; ok {
+			tagged = append(tagged, i)
+			continue
+		}
+		keep[i] = true
+		if strings.HasPrefix(l, "(define-fun ") {
+			rest := l[len("(define-fun "):]
+			if j := strings.IndexByte(rest, ' '); j > 0 {
+				defBody[rest[:j]] = i
+			}
+		}
+	}
+	if len(tagged) == 0 {
+		return keep
+	}
+	rel := map[string]bool{}
+	var work []string
+	addSyms := func(text string) {
+		for _, m := range symRe.FindAllString(text, -1) {
+			if !rel[m] {
+				rel[m] = true
+				work = append(work, m)
+			}
+		}
+	}
+	addSyms(o.Reach.S)
+	addSyms(o.Goal.S)
+	done := map[int]bool{}
+	for {
+		for len(work) > 0 {
+			s := work[len(work)-1]
+			work = work[:len(work)-1]
+			if i, ok := defBody[s]; ok && !done[i] {
+				done[i] = true
+				addSyms(c.prelude[i])
+			}
+		}
+		progress := false
+		for _, i := range tagged {
+			if !keep[i] && rel[c.subject[i]] {
+				keep[i] = true
+				addSyms(c.prelude[i])
+				progress = true
+			}
+		}
+		if !progress {
+			break
+		}
+	}
+	return keep
+}
+
+// ---- path conditions as a DAG of named conjunctions / disjunctions ----
+
+type reachNode struct {
+	prev string
+	fact Term
+	ors  []string
+}
+
+func (c *Ctx) reachAnd(prev Term, fact Term) Term {
+	if fact.IsTrue() {
+		return prev
+	}
+	if prev.IsFalse() || fact.IsFalse() {
+		return TFalse
+	}
+	for _, q := range c.quantVars {
+		if strings.Contains(fact.S, q) || strings.Contains(prev.S, q) {
+			return And(prev, fact)
+		}
+	}
+	if c.specDepth > 0 {
+		return And(prev, fact)
+	}
+	name := c.freshName("reach")
+	c.emit(fmt.Sprintf("(define-fun %s () Bool %s)", name, And(prev, fact).S))
+	c.reachNodes[name] = &reachNode{prev: prev.S, fact: fact}
+	return Term{name, SBool}
+}
+
+func (c *Ctx) reachOr(rs []Term) Term {
+	t := Or(rs...)
+	if t.IsTrue() || t.IsFalse() || len(rs) == 1 || c.specDepth > 0 {
+		return t
+	}
+	for _, q := range c.quantVars {
+		if strings.Contains(t.S, q) {
+			return t
+		}
+	}
+	name := c.freshName("reach")
+	c.emit(fmt.Sprintf("(define-fun %s () Bool %s)", name, t.S))
+	var ors []string
+	for _, r := range rs {
+		ors = append(ors, r.S)
+	}
+	c.reachNodes[name] = &reachNode{ors: ors}
+	return Term{name, SBool}
+}
+
+// specific symbols: engine-generated names other than inputs and allocation
+// frontiers; they identify "what a fact is about".
+func specificSym(s string) bool {
+	if !strings.Contains(s, "!") {
+		return false
+	}
+	if strings.HasPrefix(s, "in_") || strings.HasPrefix(s, "alloc0") || strings.HasPrefix(s, "fv_") {
+		return false
+	}
+	return true
+}
+
+// slicedQuery renders the obligation with the path condition restricted to
+// the conjuncts in the cone of influence of the goal. Dropping conjuncts only
+// weakens the hypotheses, so "unsat" remains a proof; "sat" is only a
+// candidate counterexample.
+func (c *Ctx) slicedQuery(o *Obligation, withModel bool) string {
+	// definition bodies
+	defs := map[string]string{}
+	for i := 0; i < o.Prefix; i++ {
+		l := c.prelude[i]
+		if strings.HasPrefix(l, "(define-fun ") {
+			rest := l[len("(define-fun "):]
+			if j := strings.IndexByte(rest, ' '); j > 0 {
+				defs[rest[:j]] = l
+			}
+		}
+	}
+	for i, sub := range c.subject {
+		if i < o.Prefix {
+			defs[sub] += " " + c.prelude[i]
+		}
+	}
+	closureMemo := map[string]map[string]bool{}
+	var closure func(text string, depth int) map[string]bool
+	closure = func(text string, depth int) map[string]bool {
+		out := map[string]bool{}
+		for _, m := range symRe.FindAllString(text, -1) {
+			if !specificSym(m) || out[m] {
+				continue
+			}
+			if _, isReach := c.reachNodes[m]; isReach {
+				continue
+			}
+			out[m] = true
+			if body, ok := defs[m]; ok && depth < 40 {
+				sub, have := closureMemo[m]
+				if !have {
+					closureMemo[m] = map[string]bool{}
+					sub = closure(body, depth+1)
+					closureMemo[m] = sub
+				}
+				for k := range sub {
+					out[k] = true
+				}
+			}
+		}
+		return out
+	}
+	// collect the facts of the DAG under o.Reach
+	type factRec struct {
+		node string
+		syms map[string]bool
+		keep bool
+	}
+	var facts []*factRec
+	byNode := map[string]*factRec{}
+	seen := map[string]bool{}
+	var walk func(n string)
+	walk = func(n string) {
+		if seen[n] {
+			return
+		}
+		seen[n] = true
+		rn, ok := c.reachNodes[n]
+		if !ok {
+			return
+		}
+		if rn.ors != nil {
+			for _, o2 := range rn.ors {
+				walk(o2)
+			}
+			return
+		}
+		fr := &factRec{node: n, syms: closure(rn.fact.S, 0)}
+		facts = append(facts, fr)
+		byNode[n] = fr
+		walk(rn.prev)
+	}
+	walk(o.Reach.S)
+	rel := closure(o.Goal.S, 0)
+	for changed := true; changed; {
+		changed = false
+		for _, fr := range facts {
+			if fr.keep {
+				continue
+			}
+			hit := len(fr.syms) == 0
+			for s := range fr.syms {
+				if rel[s] {
+					hit = true
+					break
+				}
+			}
+			if hit {
+				fr.keep = true
+				changed = true
+				for s := range fr.syms {
+					rel[s] = true
+				}
+			}
+		}
+	}
+	// rebuild sliced reach definitions
+	var extra []string
+	memo := map[string]string{}
+	var build func(n string) string
+	build = func(n string) string {
+		if r, ok := memo[n]; ok {
+			return r
+		}
+		rn, ok := c.reachNodes[n]
+		if !ok {
+			memo[n] = n
+			return n
+		}
+		var res string
+		if rn.ors != nil {
+			var parts []Term
+			for _, o2 := range rn.ors {
+				parts = append(parts, Term{build(o2), SBool})
+			}
+			t := Or(parts...)
+			name := "s" + n
+			extra = append(extra, fmt.Sprintf("(define-fun %s () Bool %s)", name, t.S))
+			res = name
+		} else {
+			p := build(rn.prev)
+			if byNode[n].keep {
+				name := "s" + n
+				extra = append(extra, fmt.Sprintf("(define-fun %s () Bool %s)", name, And(Term{p, SBool}, rn.fact).S))
+				res = name
+			} else {
+				res = p
+			}
+		}
+		memo[n] = res
+		return res
+	}
+	sliced := build(o.Reach.S)
+	var b strings.Builder
+	if withModel {
+		b.WriteString("(set-option :produce-models true)\n")
+	}
+	b.WriteString("(set-logic ALL)\n")
+	o2 := *o
+	o2.Reach = Term{sliced, SBool}
+	// cone over definitional axioms uses the sliced reach text
+	var sb strings.Builder
+	for _, e := range extra {
+		sb.WriteString(e)
+	}
+	o2.Reach = Term{sliced + " " + sb.String(), SBool}
+	keep := c.cone(&o2)
+	for i, l := range c.prelude[:o.Prefix] {
+		if !keep[i] {
+			continue
+		}
+		b.WriteString(l)
+		b.WriteByte('\n')
+	}
+	for _, e := range extra {
+		b.WriteString(e)
+		b.WriteByte('\n')
+	}
+	b.WriteString("(assert " + sliced + ")\n")
 	if o.Expect == "unsat" {
 		b.WriteString("(assert (not " + o.Goal.S + "))\n")
 	}
